@@ -345,7 +345,7 @@ class WorkflowDatabaseManager:
              "value": schd.config.cycle_point_dump_format},
             {"key": self.KEY_PAUSED, "value": int(schd.is_paused)},
             {"key": self.KEY_STOP_CLOCK_TIME, "value": schd.stop_clock_time},
-            {"key": self.KEY_STOP_TASK, "value": schd.stop_task},
+            {"key": self.KEY_STOP_TASK, "value": schd.pool.stop_task_id},
         ])
 
         # Store raw initial cycle point in the DB.
